@@ -459,6 +459,20 @@ func hostByName(name string) interface{} {
 		return deepValue(deepType(120)).Interface()
 	case "H_selfref":
 		return selfRef{Val: 1}
+	case "H_iface_cycle":
+		// an interface holding a pointer to itself: following it never ends
+		var x interface{}
+		x = &x
+		return x
+	case "H_ptr_cycle":
+		// a struct reachable from itself through its own pointer field
+		n := &selfRef{Val: 1}
+		n.Next = n
+		return n
+	case "H_iface_cycle_field":
+		var x interface{}
+		x = &x
+		return struct{ A interface{} }{x}
 	case "H_mixed_iface_slice":
 		return struct{ Xs []interface{} }{[]interface{}{1, "a"}}
 	case "H_map_intkeys":
